@@ -46,6 +46,8 @@ type script struct {
 	Wide       bool  `json:"wide"` // ~1 KiB lines: response larger than the socket buffers
 	Vals       int   `json:"vals"`
 	Complexity int64 `json:"complexity"`
+	// Clean: well-formed logfmt lines only and a distinct label set per series (disconnect check)
+	Clean bool `json:"clean,omitempty"`
 }
 
 type reqCase struct {
@@ -230,6 +232,9 @@ func (s script) fps(desc bool) []uint64 {
 }
 
 func (s script) line(j int) string {
+	if s.Clean && !s.Wide {
+		return fmt.Sprintf("level=info msg=\"hello\" freq=2 n=%d", j)
+	}
 	if s.Wide {
 		return fmt.Sprintf("%06d %s", j, strings.Repeat("wide line with \"quotes\" and \\ ", 36))
 	}
@@ -237,6 +242,9 @@ func (s script) line(j int) string {
 }
 
 func (s script) labels(i int) map[string]string {
+	if s.Clean {
+		return map[string]string{"a": "b", "job": "x", "test_id": strconv.Itoa(i)}
+	}
 	switch i % 4 {
 	case 0:
 		return map[string]string{"a": "b", "job": "x", "freq": "2", "test_id": strconv.Itoa(i)}
@@ -318,7 +326,7 @@ func (s script) answer(q string) *fakesql.Result {
 				Attributes: []*common.KeyValue{{Key: "service.name", Value: &common.AnyValue{Value: &common.AnyValue_StringValue{StringValue: "svc"}}},
 					{Key: "n", Value: &common.AnyValue{Value: &common.AnyValue_IntValue{IntValue: int64(j)}}}}}
 			b, _ := proto.Marshal(sp)
-			if j%5 == 4 {
+			if j%5 == 4 && !s.Clean {
 				b = []byte("\x0a\xff garbage that is not a span")
 			}
 			rows = append(rows, []any{tid, sid, "", baseNs + int64(j), int64(1000), int8(2), string(b)})
